@@ -961,6 +961,18 @@ class _Keeper(object):
         return value
 
 
+class _KeeperFC(_Keeper):
+    """A user fill/compute element that keeps its static context."""
+
+    def fill(self, value):
+        self.last = value
+
+    def compute(self):
+        yield getattr(self, "last", None)
+
+    __call__ = None
+
+
 def run_userctx(r, obs):
     """User elements with _set_context in the branches of a Split, static context with list-
     and dict-valued keys in front of it: every branch gets an equal context and no two of them
@@ -969,9 +981,18 @@ def run_userctx(r, obs):
     import lena.meta
     from rv.monitors import identity
     obs.nontrivial = True
+    import lena.math
     keepers = [_Keeper() for _ in range(r["n"])]
     branches = [(keepers[0],), lena.core.Sequence(keepers[1], _ident)] + \
         [(_ident, k) for k in keepers[2:]]
+    # branches given as bare elements that handle static context themselves: a user's
+    # fill/compute element, an inner Split of fill/compute sequences
+    bare_fc = _KeeperFC()
+    in_a, in_b = _Keeper(), _Keeper()
+    inner = lena.core.Split([lena.core.FillComputeSeq(in_a, lena.math.Sum()),
+                             lena.core.FillComputeSeq(in_b, lena.math.Sum())])
+    branches += [bare_fc, inner]
+    keepers += [bare_fc, in_a, in_b]
     sets = [lena.meta.SetContext("cuts", [0, 1]), lena.meta.SetContext("d", {"x": [1], "y": 2}),
             lena.meta.SetContext("tags", ["a", ["b"]])]
     expected = {"cuts": [0, 1], "d": {"x": [1], "y": 2}, "tags": ["a", ["b"]]}
@@ -1374,3 +1395,5 @@ RULE += (' Added: list-valued SetContext constants; identity walk between the co
          'different branches of one Split.')
 RULE += (' Added: user elements that keep the static context they are given, in the branches of a '
          'Split behind list- and dict-valued SetContext elements (identity walk between them).')
+RULE += (' Added: branches given as bare elements that handle static context themselves (a user '
+         'fill/compute element, an inner Split of fill/compute sequences).')
